@@ -4,7 +4,7 @@ SPECIFICATION FairSpec
 CONSTANTS
   Pay <- Pay21
   Errors = FALSE
-  CloseBreaksWrite = TRUE
+  CloseModes = {TRUE, FALSE}
   Variant = "code"
 INVARIANTS InvInOrder InvNoHalfOpen
 PROPERTY Terminates
